@@ -1,5 +1,5 @@
 """Orchestration of one property check (see bin/check)."""
-import os, sys, json, time, re, hashlib, subprocess, fcntl, shutil, glob
+import os, sys, json, time, re, hashlib, subprocess, fcntl, shutil, glob, signal
 
 ROOT = '/verif'
 REPO = '/repo'
@@ -32,14 +32,20 @@ def log(msg):
 
 
 def sh(cmd, timeout, cwd=None, env=None):
+    """Runs a command in its own process group so that a timeout kills the whole tree."""
     t0 = time.time()
+    p = subprocess.Popen(cmd, shell=isinstance(cmd, str), cwd=cwd, env=env or ENV, stdout=subprocess.PIPE,
+                         stderr=subprocess.STDOUT, start_new_session=True)
     try:
-        p = subprocess.run(cmd, shell=isinstance(cmd, str), cwd=cwd, env=env or ENV, timeout=timeout,
-                           stdout=subprocess.PIPE, stderr=subprocess.STDOUT)
-        return p.returncode, p.stdout.decode('utf-8', 'replace'), time.time() - t0
-    except subprocess.TimeoutExpired as e:
-        out = (e.stdout or b'').decode('utf-8', 'replace')
-        return 124, out + '\n[timeout after %ss]' % timeout, time.time() - t0
+        out, _ = p.communicate(timeout=timeout)
+        return p.returncode, out.decode('utf-8', 'replace'), time.time() - t0
+    except subprocess.TimeoutExpired:
+        try:
+            os.killpg(p.pid, signal.SIGKILL)
+        except OSError:
+            pass
+        out, _ = p.communicate()
+        return 124, (out or b'').decode('utf-8', 'replace') + '\n[timeout after %ss]' % timeout, time.time() - t0
 
 
 class Lock:
@@ -279,9 +285,17 @@ def bundle(kind, tier, seed):
         exe = build_harness()
         drv = model_driver()
         impl = os.path.join(bdir, 'impl.txt')
-        rc, out, dt_h = sh('%s %s --tier %s --seed %d --out %s' % (exe, kind, tier, seed, impl), 3000, cwd=bdir)
+        rc, out, dt_h = sh('%s %s --tier %s --seed %d --out %s' % (exe, kind, tier, seed, impl), int(os.environ.get('FG_HARNESS_TIMEOUT', '600' if tier == 'quick' else '2400')), cwd=bdir)
         meta = {'kind': kind, 'tier': tier, 'seed': seed, 'harness_rc': rc, 'harness_out': out[-2000:], 'harness_s': round(dt_h, 1)}
-        if rc not in (0, 3):
+        if rc == 124:
+            try:
+                last = [ln for ln in open(impl, errors='replace').read().split('\n') if ln.strip()][-1]
+                if last.startswith('CASE '):
+                    meta['hang_case'] = last
+            except (OSError, IndexError):
+                pass
+            meta['error'] = 'the harness did not finish generating and running the cases within its time budget (a library call that never returns?)'
+        elif rc not in (0, 3):
             meta['error'] = 'harness exited with %d' % rc
         # corpus first in spirit: the committed witnesses are always part of the bundle
         corp = [p for p in sorted(glob.glob(os.path.join(ROOT, 'corpus', '*.case')))]
@@ -473,6 +487,9 @@ def run_check(prop, tier, seed):
                 lines.append('# theorems: ' + ', '.join(audit['theorems']))
             if res.get('error'):
                 lines.append('# correspondence could not be evaluated: ' + res['error'])
+            if res.get('hang_case'):
+                lines.append('# the harness was running this case when it ran out of time:')
+                lines.append(res['hang_case'])
             for m in res['mismatches'][:10]:
                 lines.append('# correspondence broken on tag %s: impl=%r model=%r' % (m['tag'], m['impl'], m['model']))
                 lines.append(m['case_line'])
